@@ -20,8 +20,8 @@ CLAUSES = {
 FUNCTIONS = ["BaseTaskPool._task_wrapper", "BaseTaskPool._task_ending", "BaseTaskPool._start_task", "BaseTaskPool.flush"]
 
 SPAWN = ("apply2", "map2", "apply3", "start2")
-ALPHA = ("apply", "map", "rel", "fail", "cancel", "cgroup", "call", "flush", "cbrel", "lock", "unlock", "flushx", "nop")
-ALPHA_S = ("start", "stop", "rel", "fail", "cancel", "cgroup", "call", "flush", "cbrel", "lock", "unlock", "flushx", "nop")
+ALPHA = ("apply", "map", "rel", "fail", "cancel", "cgroup", "call", "flush", "cbrel", "lock", "unlock", "flushx", "gather", "nop")
+ALPHA_S = ("start", "stop", "rel", "fail", "cancel", "cgroup", "call", "flush", "cbrel", "lock", "unlock", "flushx", "gather", "nop")
 NOP = len(ALPHA) - 1
 
 
@@ -85,6 +85,8 @@ def _final(w, it, pool, size, cb, simple):
         for i in range(pool._num_started):
             if sum(1 for c in w.cb if c[0] == "end" and c[1] == i) != 1:
                 return 213
+    if pool._closed.is_set():
+        return 0          # closed for good: no capacity left to probe
     before = len(w.W)
     pool.unlock()
     if simple:
@@ -109,6 +111,7 @@ def families(tier):
         parts += parts_product(cb=(3,), x1=(0, 1, 3), x2=(9,), x3=(2,))      # lock, then a task finishes
         parts = [p + ["x4 == %d" % NOP] for p in parts]
         parts += parts_product(cb=(3,), x1=(0, 1, 3), x2=(4,), x3=(7,), x4=(11,))   # cancel; flush; the flush call is cancelled
+        parts += [p + ["x4 == %d" % NOP] for p in parts_product(cb=(3,), x1=(0, 1), x2=(12,), x3=(2, 3))]   # gather_and_close(); a task finishes / fails meanwhile
     else:
         pre = base + ["0 <= size <= 3", "0 <= x3 <= %d" % NOP, "a3 >= -1", "x4 == %d" % NOP, "a4 == 0"]
         parts = refine(parts_product(cb=(1, 3), x1=range(4), x2=range(NOP)), ["x2 == 0", "x2 == 1"], "x3", range(NOP + 1))
